@@ -3,6 +3,7 @@ import os
 
 from vlib import common as C
 from vlib import conc
+from vlib import memsearch
 
 RULES = ['tAdd', 'tDone.zero', 'tDone.more', 'tInsAdd', 'tInsLoad.empty', 'tInsLoad.full', 'tInsCas.attachOk', 'tInsCas.attachFail',
          'tInsCas.consumeOk', 'tInsCas.consumeFail', 'tInsSub.more', 'tFulfil.empty', 'tFulfil.call', 'tFulfil.drop',
@@ -16,6 +17,11 @@ RULES = ['tAdd', 'tDone.zero', 'tDone.more', 'tInsAdd', 'tInsLoad.empty', 'tInsL
 # behaviours of the model the FIBER backend / the scenarios never show: stale loads, spurious wake-ups, rule violations
 NOT_EXHIBITABLE = ['tInsLoad.empty.stale', 'tStart.check.stale', 'tStart.try.stale', 'tTryLoad.stale', 'tBWake.spurious',
                    'tXchgHead.crash', 'tFulfil.result', 'tInsSub.zero']
+
+
+MEM_FILES = ['src/algo/one_shot_event.cpp', 'include/yaclib/algo/one_shot_event.hpp', 'include/yaclib/algo/wait_group.hpp',
+             'include/yaclib/algo/detail/wait_event.hpp', 'include/yaclib/util/detail/atomic_counter.hpp',
+             'include/yaclib/util/detail/set_deleter.hpp']
 
 
 def run(res, tier):
@@ -35,6 +41,11 @@ def run(res, tier):
         search_args=[['--thorough', '--mode', 'dfs', '--pb', '3', '--wb', '1', '--max-exec', '150000'],
                      ['--thorough', '--mode', 'random', '--random-runs', '20000']],
         unmodelled_ok=NOT_EXHIBITABLE)
+    # an obligation broke (e.g. a tie: a memory order was edited) and no schedule shows anything — the FIBER backend is
+    # sequentially consistent: search the clause "what was done before Done() / completion is visible after Wait / co_await"
+    # with the C04 machinery restricted to the WaitGroup's files (role table + ThreadSanitizer scenario `waitgroup`:
+    # a waiter arriving after zero, and a non-last Done-er whose writes are read after the release)
+    memsearch.refine_no_input(res, 'C16', tier, MEM_FILES, 'waitgroup')
     if tier == 'thorough':
         # the same scenarios under AddressSanitizer: the heap waiter of a timed wait (two owners) and the consumed cores
         binary = C.build_harness('c16', 'fiber_asan', ['c16.cpp'])
@@ -52,4 +63,5 @@ def run(res, tier):
 
 
 def replay(path):
-    return conc.replay('C16', path)
+    r = memsearch.replay(path)
+    return conc.replay('C16', path) if r is None else r
